@@ -140,6 +140,17 @@ pub fn build_target_with<F: FnOnce(&mut Builder, &mut Rng)>(rng: &mut Rng, cfg: 
             exec_regions.push((r.addr, r.len));
         }
     }
+    // an executable private FILE mapping whose next page (same file) is inaccessible: the writer's
+    // merged mapping spans both, so a window around an address near the end of the first page
+    // reaches into memory that cannot be read
+    {
+        let path = format!("{dir}/exec-with-noaccess-tail.bin");
+        std::fs::write(&path, vec![0xc3u8; 2 * PAGE as usize]).expect("write exec file");
+        let a = b.alloc(2, 6);
+        b.add_region(Region { addr: a, len: PAGE, prot: 5, kind: RegionKind::File { path: path.clone(), offset: 0 }, fill: Fill::Keep, pokes: Vec::new(), unlink_after: false });
+        b.add_region(Region { addr: a + PAGE, len: PAGE, prot: 0, kind: RegionKind::File { path, offset: PAGE }, fill: Fill::Keep, pokes: Vec::new(), unlink_after: false });
+        exec_regions.push((a, PAGE));
+    }
     if cfg.big_region_pages > 0 {
         let i = b.anon(cfg.big_region_pages, 3, 6, Fill::Pattern);
         let r = &b.spec.regions[i];
@@ -173,7 +184,10 @@ pub fn build_target_with<F: FnOnce(&mut Builder, &mut Rng)>(rng: &mut Rng, cfg: 
         let sp_page = rng.below(pages);
         let any = rng.below(4096);
         let sp_off = (sp_page * PAGE + *rng.pick(&[0u64, 8, 512, 2040, 2048, 2056, 4088, any])) as i64;
-        let shape = StackShape { pages, sp_offset: sp_off, ..Default::default() };
+        // now and then the stack is a private file mapping with an inaccessible tail of the same
+        // file above it (the writer's merged mapping then reaches over unreadable memory)
+        let tail = if rng.chance(1, 6) { 2 } else { 0 };
+        let shape = StackShape { pages, sp_offset: sp_off, noaccess_file_tail_pages: tail, ..Default::default() };
         let name = if cfg.names { Some(random_name(rng)) } else { None };
         b.sentinel(rng, mode, &shape, name, None);
     }
